@@ -6,7 +6,7 @@ import apigen
 import gen
 from common import seed, pmap
 
-GLY = ["Glc", "Glc-ol", "Gal-ol", "Man-onic", "Glc-aric", "GlcA", "Neu5Ac(a2-3)Gal", "Man(a1-3)[Man(a1-6)]Man", "LDManHep", "Kdo-ulosonic", "Gal(b1-4)Glc-ol",
+GLY = ["Man(a1-4)Glc b", "Gal(b1-4)GlcNAc a", "Fuc(a1-2)[Gal(b1-3)]GlcNAc b", "Glc", "Glc-ol", "Gal-ol", "Man-onic", "Glc-aric", "GlcA", "Neu5Ac(a2-3)Gal", "Man(a1-3)[Man(a1-6)]Man", "LDManHep", "Kdo-ulosonic", "Gal(b1-4)Glc-ol",
        "1,6-Anhydro-Glc", "Glc3e", "D-Glc", "L-Glc", "GlcNAc a", "Fruf", "Ara-ol", "Api-ol", "ManHep", "Xyl-onic", "Gal(b1-4)GlcNAc b", "Glc6Ole(a1-4)Glc",
        "Gal-ulosonic", "3dGal-ulosonic", "Glc-ulosaric", "GalOct-ol", "3dGalOct-ulosonic", "ManHep-onic", "Man-ulosonic", "3dHex-ulosonic", "Hex-ol", "Gal-onic", "Man-aric"]
 BAD = ["Glc(", "", "Unk", "Glc#Man", "Glc(a1-?)Glc", "Glc(a1-1)Glc(a1-4)Glc", "Glc9S", "Man(a1-2", "xyz", {"none": 1}, {"int": 3}]
@@ -49,7 +49,12 @@ def random_call(rng):
     for _ in range(rng.randint(1, 5)):
         m = rng.choice(["get_smiles", "get_smiles", "summary", "count", "save_dot", "tree"])
         if m == "count":
-            methods.append(["count", rng.choice(["Glc", "Man", "Gal", "GlcNAc"]), {"match_nodes": True}])
+            if isinstance(x, str) and rng.random() < 0.5:
+                # the glycan's own reducing-end residue / the glycan itself, molecule-level matching
+                q = x.split(")")[-1].split("]")[-1] if rng.random() < 0.5 else x
+                methods.append(["count", q, {"match_all_fg": True, ("match_root" if "(" not in q else "match_nodes"): True}])
+            else:
+                methods.append(["count", rng.choice(["Glc", "Man", "Gal", "GlcNAc"]), {"match_nodes": True}])
         else:
             methods.append([m])
     return {"fn": "glycan", "iupac": x, "opts": opts, "methods": methods}
@@ -85,6 +90,14 @@ def run(rep, tier, driver):
                 histories.append([{"fn": "glycan", "iupac": pre + sugar + s1, "methods": [["get_smiles"]]}] +
                                  [{"fn": "glycan", "iupac": sugar + s2, "methods": [["get_smiles"]]} for s2 in sufs] +
                                  [{"fn": "glycan", "iupac": sugar + "Oct-ol", "methods": [["get_smiles"]]}])
+    # one Glycan object, the same query before and after the other methods (with and without full: with full=False nothing is assembled
+    # before the first get_smiles)
+    for g in ["Man(a1-4)Glc b", "Gal(b1-4)GlcNAc a", "Man(a1-3)[Man(a1-6)]Man b", "Neu5Ac(a2-3)Gal(b1-4)Glc a", "Gal(b1-4)Glc"]:
+        root = g.split(")")[-1].split("]")[-1]
+        for opts in ({}, {"full": False}):
+            qs = [["count", root, {"match_all_fg": True, "match_root": True}], ["count", g, {"match_all_fg": True, "match_nodes": True}],
+                  ["count", root, {"match_some_fg": True, "match_nodes": True}], ["tree"]]
+            histories.append([{"fn": "glycan", "iupac": g, "opts": opts, "methods": qs + [["get_smiles"]] + qs + [["summary"], ["save_dot"]] + qs + [["get_smiles"]]}])
     rep.rule = ("random call histories (convert, convert_generator incl. abandoned generators, Glycan construction + get_smiles/summary/count/"
                 "save_dot/get_tree in random order; good and failing inputs; verbose=None, file/stdout sinks, missing file) executed in one fresh "
                 "interpreter, and every call of every history executed alone in its own fresh interpreter; Spec: identical result, root logger "
@@ -118,6 +131,15 @@ def run(rep, tier, driver):
                 if o.get(field) != ref.get(field):
                     rep.violation("history", {"history": h[:i + 1], "position": i}, {field: o.get(field)}, {field: ref.get(field), "note": what},
                                   key="history:%s:%s" % (field, json.dumps(h[:i + 1], sort_keys=True)[:300]))
+            if c["fn"] == "glycan" and isinstance(o.get("result"), list):
+                # the same method of the same object, called again after other methods, must answer the same
+                seen_m = {}
+                for mth, r in zip(c.get("methods", []), o["result"]):
+                    mk = json.dumps(mth, sort_keys=True)
+                    if mk in seen_m and seen_m[mk] != r:
+                        rep.violation("history", {"history": h[:i + 1], "position": i, "method": mth}, {"again": r}, {"first": seen_m[mk], "note": "repeated method call on one Glycan object"},
+                                      key="repeat:%s:%s" % (mk[:100], k[:200]))
+                    seen_m.setdefault(mk, r)
             if o["logger_disabled"]:
                 rep.violation("history", {"history": h[:i + 1], "position": i}, {"logger_disabled": True}, {"logger_disabled": False}, key="logger:" + k[:300])
             if o["tables"] != ref["tables"] or ref["tables"] != tables0:
